@@ -61,6 +61,11 @@ pub fn gen(seed: u64, tier: Tier) -> ScenarioSpec {
         3 => rec.gecko = None,
         _ => {}
     }
+    // below 3.3 a Gecko list is just more declared events the version does not define; the reader keeps it
+    if !crate::layout::gte((rec.version[0], rec.version[1]), (3, 3)) && rng.chance(1, 20) {
+        rec.force_gecko = true;
+        rec.gecko = Some(GeckoSpec { len: 1 + rng.below(1500) as u32, pseed: rng.next_u64() });
+    }
     // the empty set of occupied ports: a recording nobody plays in (legal; before 2.2 its frames leave no bytes)
     if rng.chance(1, 60) {
         rec.ports.clear();
